@@ -353,14 +353,17 @@ def c18(tier, seed):
             naija = build("cli-rel")
             res.absorb(run_engine(rel, "limits", 64, seed, {"naija": naija, "scratch": scratch}, nshards=11, build_name="rel+cli-rel", timeout_case=1800))
             res.absorb(run_engine(build("dbg"), "limits", 64, seed, {}, nshards=11, build_name="dbg", timeout_case=3600))
+        dense = run_engine(rel, "limits", 64, seed, {"stage": "dense", "dense-max": 420 if tier == "quick" else 1000}, nshards=16, build_name="rel", timeout_case=1800)
+        res.absorb(dense)
     finally:
         shutil.rmtree(scratch, ignore_errors=True)
     triage(res)
     table = [r for r in res.records if "position" in r]
     res.extra["probe_table"] = [{k: r.get(k) for k in ("family", "target", "position", "size", "over", "crate_says", "analysis_warnings", "semantic_warnings", "plan_present", "skipped", "source_bytes")} | {"metric": (r.get("metrics") or {}).get(r.get("target"))} for r in table]
     res.extra["searches"] = [r for r in res.records if "first_size_over" in r or "note" in r]
+    res.extra["dense_table"] = sorted([r for r in res.records if "dense" in r], key=lambda r: (r["dense"], r["size"]))
     return finish("C18", tier, seed, "exploration", res,
-                  "one parametric program family per analysis metric (statements, cfg ops, ops in one function, functions, locals via a huge parameter list, scopes via empty blocks, direct user calls, blocks in one function via empty loops, total cfg blocks via loops spread over functions, and the two derived bounds summary events and liveness events); for each, the size at which the observed metric (counted with the crate's public cfg::count_program and ProgramFacts) first exceeds its default cap is found by search, and the programs just below, at and just above are run with 16 GiB of reserved address space per arena. Contract evaluated on what was observed: accepted; prints exactly the known result; if no metric exceeds its cap: no resource-limit warning, a plan, the sentinel warnings (one certainly unused variable, one certainly unreachable statement) and at least one statement skipped at run time; otherwise: exactly one `analysis` warning, no semantic warnings, no plan, nothing skipped; and the crate's own first_exceeded_limit must agree with the caps on whether anything is exceeded. probe_table in this file lists, per cap, which metric actually fired below/at/above it (several caps are pre-empted by another bound). Non-trivial = the targeted metric is within +-1 of its cap; distinct = (family, metric, size)",
+                  "one parametric program family per analysis metric (statements, cfg ops, ops in one function, functions, locals via a huge parameter list, scopes via empty blocks, direct user calls, blocks in one function via empty loops, total cfg blocks via loops spread over functions, and the two derived bounds summary events and liveness events); for each, the size at which the observed metric (counted with the crate's public cfg::count_program and ProgramFacts) first exceeds its default cap is found by search, and the programs just below, at and just above are run with 16 GiB of reserved address space per arena. Contract evaluated on what was observed: accepted; prints exactly the known result; if no metric exceeds its cap: no resource-limit warning, a plan, the sentinel warnings (one certainly unused variable, one certainly unreachable statement) and at least one statement skipped at run time; otherwise: exactly one `analysis` warning, no semantic warnings, no plan, nothing skipped; and the crate's own first_exceeded_limit must agree with the caps on whether anything is exceeded. probe_table in this file lists, per cap, which metric actually fired below/at/above it (several caps are pre-empted by another bound). Stage dense: programs far below every cap whose call graph is hard for the interprocedural analyses (rings, chains and two-callee graphs of n = 24..420 functions, 900 in the thorough tier, in both definition orders, with and without writes to a global) followed by a fixed tail of statements (two dead stores around a call into the graph, a live store, an unused variable, unreachable code): accepted, right result, no limit warning, a plan, and the warnings reported on the tail and the number of statements skipped at run time equal those of the same shape with n = 3 (dense_table). Non-trivial = the targeted metric is within +-1 of its cap, or a dense program with n >= 90; distinct = (family, metric, size)",
                   ["caps are read from analysis::limits::DEFAULT_CAPS; metrics are the implementation's own counts (public API), the contract on them is the oracle",
                    "the library run reserves 16 GiB of address space per arena (PROT_NONE; only touched pages are committed); the thorough tier additionally runs every within-cap program through the release CLI with its 256 MiB scratch arenas",
                    "expected outputs are known by construction (counters and fixed markers)"],
